@@ -60,6 +60,7 @@ func (h *HLL) Count() int64 {
 // ---------------------------------------------------------------- worker
 
 type FoundViolation struct {
+	From int       `json:"from"` // first run index the reporting worker process executed
 	Run  int       `json:"run"`
 	Plan Plan      `json:"plan"`
 	V    Violation `json:"v"`
